@@ -229,7 +229,16 @@ pub struct OrderCase {
 }
 
 fn order_strat(_: &Ctx) -> BoxedStrategy<OrderCase> {
-    (0usize..7, any::<bool>(), 3usize..=8, proptest::collection::vec((prop_oneof![3 => 1.0..3.0f64, 1 => Just(1.0), 1 => Just(2.0)], -0.5..0.5f64, -0.5..0.5f64, 0.0..6.28f64), 2..=6)).prop_map(|(group, lj, sides, states)| OrderCase { group, lj, sides, states }).boxed()
+    // scales: independent values, repeated values (ties) and values that differ in the 8th..14th digit (a tolerant
+    // comparison would call them equal)
+    (
+        0usize..7,
+        any::<bool>(),
+        3usize..=8,
+        proptest::collection::vec((prop_oneof![3 => 1.0..3.0f64, 1 => Just(1.0), 1 => Just(2.0), 2 => (-14.0..-7.0f64).prop_map(|e| 2.0 * (1. + 10f64.powf(e))), 1 => (-14.0..-7.0f64).prop_map(|e| 1.0 + 10f64.powf(e))], -0.5..0.5f64, -0.5..0.5f64, 0.0..6.28f64), 2..=6),
+    )
+        .prop_map(|(group, lj, sides, states)| OrderCase { group, lj, sides, states })
+        .boxed()
 }
 
 fn order_check<S: State + Clone>(states: Vec<S>) -> Result<usize, String> {
